@@ -751,6 +751,8 @@ def m_to(I, t, *a, **k):
     for x in a:
         if isinstance(x, torch.dtype):
             d = x
+        elif isinstance(x, CT):
+            d = x.dtype
     if d is None:
         return t
     return t.cast(dtype_tag(d))
@@ -1073,6 +1075,22 @@ def m_clamp(I, t, min=None, max=None):
 
 METHODS["clamp_min"] = lambda I, t, m: m_clamp(I, t, min=m)
 METHODS["clamp_max"] = lambda I, t, m: m_clamp(I, t, max=m)
+
+
+def _inplace(fn):
+    def f(I, t, *a, **k):
+        r = fn(I, t, *a, **k)
+        t.store(Ellipsis, r if r.dtype == t.dtype else r.cast(t.dtype))
+        return t
+
+    return f
+
+
+METHODS["clamp_"] = _inplace(m_clamp)
+METHODS["clamp_min_"] = _inplace(METHODS["clamp_min"])
+METHODS["clamp_max_"] = _inplace(METHODS["clamp_max"])
+for _n in ("add", "sub", "mul", "div", "neg", "abs", "floor"):
+    METHODS[_n + "_"] = _inplace(METHODS[_n])
 
 
 @method("gather")
